@@ -164,7 +164,7 @@ def r171_172(ctx):
                     oks = None
         if oks:
             inits = [e for e in ev_in if e.kind == "store" and e.data.get("tkind") == "name" and e.data["name"] == fname and len(e.loops) == 2
-                     and e.seq < cbs[0].seq]
+                     and e.seq < cbs[0].seq and e.data.get("scope") == acc[0].data.get("scope")]
             cl, cf_ = A.C.canon(lit), A.C.canon(flag[0])
             # `if stop:` or `if self.callbacks_ and <stop>:` (the presence test merged into the exit condition)
             exit_on_flag = cl is cf_ or (cl.op == "and" and cf_ in cl.args[0] and all(x is cf_ or x in present for x in cl.args[0]))
